@@ -450,6 +450,25 @@ def oracle_toml(text, exp):
         dec = tomllib.loads(text)
     except Exception as e:  # noqa
         return "rejected by tomllib: %s" % (str(e)[:80])
+
+    def big_int(x):
+        if isinstance(x, bool):
+            return None
+        if isinstance(x, int) and not (-2 ** 63 <= x < 2 ** 63):
+            return x
+        if isinstance(x, dict):
+            x = list(x.values())
+        if isinstance(x, list):
+            for y in x:
+                b = big_int(y)
+                if b is not None:
+                    return b
+        return None
+    b = big_int(dec)
+    if b is not None:
+        # TOML v1.0.0, Integer: "If an integer cannot be represented losslessly, an error must be thrown" by parsers
+        # with 64-bit integers; tomllib only accepts it because Python integers are unbounded
+        return "integer literal %d is outside the 64-bit range of TOML integers (a parser with 64-bit integers must reject the document)" % b
     return None if same(to_tagged(dec), exp, exact_numbers=False) else "TOML decodes to a different value"
 
 
@@ -620,8 +639,8 @@ def run(rep):
         "decoded with PyYAML only in the shapes YAML reads back (printable content, last line not empty, first non-empty "
         "line not starting with a space) and with a line break appended to the document (clip chomping drops the final "
         "newline of a block scalar that ends the text); a failure there is recorded as a broken tie, not as a violation",
-        "TOML numbers: integral doubles >= 2^63 are written as integer literals, which tomllib reads (arbitrary precision) "
-        "but parsers with 64-bit integers must reject (TOML v1.0.0, Integer); reported, not judged here",
+        "TOML numbers: an integer literal outside the signed 64-bit range is judged a violation although tomllib reads it "
+        "(arbitrary precision): TOML v1.0.0 obliges parsers with 64-bit integers to reject it",
     ]
     regenerate_table(rep)
     vlib.prelude(rep, cli=True)
@@ -1172,15 +1191,23 @@ def cli_batch(rep, rng, n):
             if bad:
                 rep.violation(key, "YAML-stream item: " + bad, replay)
         else:
-            names = rng.sample(["a.json", "b", "c.txt", "d1", "e_2", "f-3"], rng.randrange(1, 4))
-            files = [(nm, gen_val(rng, 2)) for nm in names]
-            src = jsonnet_src(Obj([(False, nm, fv) for nm, fv in files]))
+            names = rng.sample(["a.json", "b", "c.txt", "d1", "e_2", "f-3"], rng.randrange(1, 5))
+            # every way a top-level field gets its final visibility (own marker, or inherited through `+`):
+            # (lower layer marker or None, upper layer marker, visible in the result)
+            VIS = [(None, ":", True), (None, "::", False), (None, ":::", True), ("::", ":", False), ("::", ":::", True),
+                   (":", "::", False), (":::", ":", True), (":::", "::", False), (":", ":::", True)]
+            plan = [(nm, gen_val(rng, 2), rng.choice(VIS) if i or rng.random() < 0.5 else (None, ":", True)) for i, nm in enumerate(names)]
+            lower = ", ".join("%s%s %s" % (vlib.jsonnet_str(nm), lo, jsonnet_src(gen_val(rng, 1))) for nm, fv, (lo, up, vis) in plan if lo)
+            upper = ", ".join("%s%s %s" % (vlib.jsonnet_str(nm), up, jsonnet_src(fv)) for nm, fv, (lo, up, vis) in plan)
+            src = "{%s} + {%s}" % (lower, upper)
+            files = [(nm, fv) for nm, fv, (lo, up, vis) in plan if vis]
+            hidden = [nm for nm, fv, (lo, up, vis) in plan if not vis]
             d = os.path.join(vlib.TMP, "c05_multi_%d" % os.getpid())
             shutil.rmtree(d, ignore_errors=True)
             os.makedirs(d)
             rc, out, err = run_cli(["-m", d], src)
-            key = "cli-multi " + wire(Obj([(False, nm, fv) for nm, fv in files]))
-            rep.count(key, True)
+            key = "cli-multi " + src
+            rep.count(key, bool(hidden) or any(lo for nm, fv, (lo, up, vis) in plan))
             rep.bump("cli-multi")
             replay = {"cli": ["-m", "<dir>"], "src": src, "stdout": out.decode("utf-8", "replace")[:500], "stderr": err.decode("utf-8", "replace")[:300]}
             if rc != 0:
@@ -1195,6 +1222,13 @@ def cli_batch(rep, rng, n):
                     bad = oracle_json(text, expected(fv))
                     if bad:
                         rep.violation(key, "multi-file output %s: %s" % (nm, bad), replay)
+                for nm in hidden:
+                    if os.path.exists(os.path.join(d, nm)):
+                        rep.violation(key, "multi-file output wrote a file for the hidden field %s" % nm, replay)
+                listed = sorted(x for x in out.decode("utf-8", "replace").split("\n") if x)
+                want = sorted(os.path.join(d, nm) for nm, fv in files)
+                if listed != want:
+                    rep.violation(key, "multi-file output lists %r, the visible fields are %r" % (listed, want), replay)
             shutil.rmtree(d, ignore_errors=True)
 
 
